@@ -588,6 +588,13 @@ func (s *Session) start() error {
 				return
 			}
 
+			// A counterparty that is not logged on (any more) is not probed: entering
+			// WaitingTestReqAnswer from another state would let the next inbound
+			// message "restore" SuccessfulLogged without any Logon.
+			if !s.IsLogged() {
+				continue
+			}
+
 			testRequest := s.MessageBuilders.TestRequestBuilder.Build()
 
 			testReqCounter++
